@@ -23,7 +23,7 @@ ASSUMPTIONS = [
 
 HEADER = """From Mkdb Require Import Model.CaseLib Model.Value Model.Csv Spec.CsvSpec.
 Open Scope Z_scope.
-Definition B (n : nat) (s : string) : string := String (ascii_of_nat n) s.
+Definition S (l : list N) : string := fold_right (fun n s => String (ascii_of_N n) s) EmptyString l.
 """
 
 TYPES = ["int", "bigint", "varchar", "boolean"]
@@ -50,16 +50,19 @@ def gen_field(rng, ty, row_budget):
     if r < 0.10:
         return "\\N"
     if ty in ("int", "bigint"):
-        if r < 0.62:
-            return rng.choice(INT_GOOD) if rng.chance(0.6) else str(rng.randrange(-3000000000, 3000000000))
-        if r < 0.85:
+        if r < 0.80:
+            if rng.chance(0.5):
+                return rng.choice(INT_GOOD)
+            return str(rng.randrange(-2147483648, 2147483648) if ty == "int" or rng.chance(0.3)
+                       else rng.randrange(-2 ** 63, 2 ** 63))
+        if r < 0.93:
             return rng.choice(INT_EDGE)
         return rng.choice(INT_BAD)
     if ty == "boolean":
-        return rng.choice(BOOL_GOOD) if r < 0.8 else rng.choice(BOOL_BAD)
-    if r < 0.80:
+        return rng.choice(BOOL_GOOD) if r < 0.93 else rng.choice(BOOL_BAD)
+    if r < 0.88:
         return rng.choice(WORDS)
-    if r < 0.90:
+    if r < 0.96:
         return "v" * rng.randrange(max(1, row_budget - 12), row_budget + 12)     # around the 400 byte limit
     return rng.choice(["é" * rng.randrange(150, 220), "w" * 255, "z" * 500])
 
@@ -114,9 +117,10 @@ def gen_import(rng, schema, tier):
     if explicit_needed:
         # the catalog lookup fails: the driver builds importCfg directly with these types; sometimes
         # give a known column a wrong type to reach the storage kind check
-        if rng.chance(0.3):
-            k = rng.randrange(0, len(types))
-            types[k] = rng.choice(TYPES)
+        known = [k for k, d in enumerate(dst) if d in tyof]
+        if known and rng.chance(0.6):
+            k = rng.choice(known)
+            types[k] = rng.choice([t for t in TYPES if t != types[k]])
     # per source index, the destination types it feeds (to generate plausible fields)
     feed = {}
     for i, s in enumerate(src):
@@ -178,7 +182,7 @@ def gen_case(rng, tier):
 
 
 def generate(rng, tier):
-    n = 260 if tier == "quick" else 3000
+    n = 400 if tier == "quick" else 4000
     return [gen_case(rng, tier) for _ in range(n)]
 
 
@@ -187,30 +191,10 @@ def generate(rng, tier):
 # ---------------------------------------------------------------------------------------------
 
 def cq_str(bs):
-    """Coq string term for a byte string"""
-    out = '""'
-    i = len(bs)
-    first = True
-    # build from the end: runs of printable ASCII as literals, other bytes through B
-    parts = []
-    j = 0
-    while j < len(bs):
-        if 32 <= bs[j] < 127:
-            k = j
-            while k < len(bs) and 32 <= bs[k] < 127:
-                k += 1
-            parts.append(("s", bs[j:k].decode("ascii").replace('"', '""')))
-            j = k
-        else:
-            parts.append(("b", bs[j]))
-            j += 1
-    expr = None
-    for kind, v in reversed(parts):
-        if kind == "s":
-            expr = '"%s"' % v if expr is None else '("%s" ++ %s)' % (v, expr)
-        else:
-            expr = '(B %d %s)' % (v, expr if expr is not None else '""')
-    return "(%s)%%string" % (expr if expr is not None else '""')
+    """Coq string term for a byte string (S : list N -> string, see HEADER)"""
+    if len(bs) <= 12 and all(32 <= b < 127 and b != 34 for b in bs):
+        return '"%s"%%string' % bs.decode("ascii")
+    return "(S [%s]%%N)" % ";".join("%d" % b for b in bs)
 
 
 def hexs(h):
@@ -329,7 +313,7 @@ def run(ctx):
     else:
         cases = generate(ctx.rng, ctx.tier)
     obs, mm, sm = evaluate(ctx, cases, "c19")
-    stats = {"reader_records": 0, "reader_parse_errors": 0, "reader_other_errors": 0, "events_ok": 0}
+    stats = {"reader_records": 0, "reader_parse_errors": 0, "reader_other_errors": 0}
     evk, modes, routes = {}, {}, {}
     nontrivial, seen = 0, set()
     for c, o in zip(cases, obs):
